@@ -639,6 +639,10 @@ class Renderer:
 _WORD_END = set("abcdefghijklmnopqrstuvwxyzABCDEFGHIJKLMNOPQRSTUVWXYZ0123456789_.")
 _WORD_START = set("abcdefghijklmnopqrstuvwxyzABCDEFGHIJKLMNOPQRSTUVWXYZ0123456789_.$~-")
 _SEPS = [" ", "\n", "  ", "\t", " \n  ", "\n\n", " /* c */ ", "/**/", " // note\n", "//x\n    ", " \\\n ", "/* a\n b */"]
+# the other line-end conventions: CR LF, a bare CR (also as the end of a line comment). Only for texts that are handed to
+# compile() as strings: a file read from disk goes through Python's universal newlines, where a CR is a line break for the
+# line counter too, which the position records of this renderer do not model.
+_SEPS_CR = ["\r\n", " \r ", " // note\r\n", " // note\r", "\r\n\r\n"]
 
 
 # comments that look like something else: meta-attribute lines (only the run of //?: lines at the very TOP of a file is a
@@ -658,7 +662,7 @@ def needs_sep(a: str, b: str) -> bool:
     return (a[-1], b[0]) in fuse
 
 
-def assemble(toks: list[Tok], layout=None, dims: set | None = None) -> tuple[str, dict, dict]:
+def assemble(toks: list[Tok], layout=None, dims: set | None = None, cr: bool = False) -> tuple[str, dict, dict]:
     """Glue tokens with separators; fills positions. Returns (text, marks, ends)."""
     out: list[str] = []
     line, col = 0, 0
@@ -681,6 +685,10 @@ def assemble(toks: list[Tok], layout=None, dims: set | None = None) -> tuple[str
             if k < len(_SEPS):
                 sep = _SEPS[k]
                 used_layout = True
+                if cr and layout(4) == 0:
+                    sep = _SEPS_CR[layout(len(_SEPS_CR))]
+                    if dims is not None:
+                        dims.add("cr_line_ends")
             elif k < len(_SEPS) + 3:
                 sep = "\n" + " " * (4 * t.ind) if t.pre == "\n" else t.pre
             elif k == len(_SEPS) + 6 and i > 0:
@@ -726,11 +734,11 @@ def assemble(toks: list[Tok], layout=None, dims: set | None = None) -> tuple[str
     return "".join(out) + "\n", marks, ends
 
 
-def render(program: dict, chooser=None, layout=None, legacy_ok: bool = True) -> Rendered:
+def render(program: dict, chooser=None, layout=None, legacy_ok: bool = True, cr: bool = False) -> Rendered:
     r = Renderer(chooser, legacy_ok)
     r.program(program)
     res = Rendered()
     res.toks = r.toks
     res.dims = r.dims
-    res.text, res.marks, res.ends = assemble(r.toks, layout, res.dims)
+    res.text, res.marks, res.ends = assemble(r.toks, layout, res.dims, cr)
     return res
